@@ -141,7 +141,7 @@ def first_divergence(*trajs):
   for k in range(T):
     for o in trajs:
       v = o['qd'][k]
-      if v.size and np.nanmax(np.abs(v)) > DIVERGED:
+      if np.max(np.abs(v[np.isfinite(v)]), initial=0.0) > DIVERGED:
         return k
   return None
 
